@@ -45,12 +45,8 @@ example : chunks [10, 11] 4 = [[10], [11], [], []] := by decide
 /-- the volumes of ranks `0 … world-1`, concatenated, are the (limited) volume list -/
 theorem rank_volumes_cover (layout : List Nat) (world : Nat) (hw : 0 < world) (limit : Int) :
     (List.range world).flatMap (fun r => rankVols layout world r limit) =
-      applyLimit (volumes layout) limit := by
-  unfold rankVols
-  rw [List.flatMap_def]
-  have h := range_map_getD (chunks (applyLimit (volumes layout) limit) world)
-  rw [chunks_length'] at h
-  rw [h, chunks_flatten' _ _ hw]
+      applyLimit (volumes layout) limit :=
+  rank_volumes_cover' layout world hw limit
 
 /-- **Concatenating the samplers of ranks `0 … world-1` gives every dataset index exactly once, in
 order** (ranks may be empty when `world` exceeds the number of volumes). -/
